@@ -41,7 +41,7 @@ CHECKS = {
  "C11": ("exploration", "property-based testing: timeline relations inside and across generated segmentations",
          "In-segment deltas, signed composition offsets, non-sync flags, base decode time monotonicity/non-overlap/constant origin and init byte-stability.",
          "Constant-origin clause only judged for constant-interval input with >= 2 samples per segment, as the property states.", "3/C11"),
- "C13": ("fault_enumeration", "fault-injection enumeration over generated histories: scripted Write sink failing at every call index x 7 modes and every byte offset, plus generated short-write/Interrupted schedules",
+ "C13": ("fault_enumeration", "fault-injection enumeration over generated histories: scripted Write sink failing at every call index x 20 error kinds (ErrorKinds and genuine OS error codes) and every byte offset, plus generated short-write/Interrupted schedules",
          "For each generated small history every sink write call and every output byte offset is a fault point (exhaustive per history); clauses: no panic, Err iff a write ultimately failed, accepted bytes are a prefix of the fault-free file, nothing written and no call succeeding after the finish, benign schedules are transparent. aimed_offsets: recordings built in two passes so that a sample ends exactly at file offset 4 KiB .. 128 KiB; every write call of those fails (sticky and once) and faults after exactly 2^k accepted bytes.",
          "Trusted: std write_all semantics; unbounded Interrupted runs are not generated.", "3/C13"),
  "C14": ("exploration", "exhaustive small-scope enumeration + property-based testing against an independent reference splitter; ADTS lengths enumerated exhaustively and read back from muxed files",
@@ -54,16 +54,16 @@ CHECKS = {
          "Independent civil-from-days calendar, 5-bit language unpacking, udta decoder; isolation by differential description. command_line: titles and languages given to the real binary (quoted, padded, line-terminated, multi-byte; ISO 639-2 B/T pairs) are read back from the file.",
          "ISO-8601 claimed to year 9999; beyond only termination (10 s deadline).", "3/C18"),
  "C19": ("exploration", "property-based testing over configurations with strict specification-derived decoders per box and record",
-         "Every fixed-layout box/record of progressive files, init segments and media segments is decoded strictly (size, version, flags, reserved bits, positions). The progressive tkhd length/flags deviations are listed open findings; its remaining fields are still judged at the shifted positions. av1C profile/level/tier are compared with the sequence header in the record's own configOBUs; the handler type with the sample entry's coding and the media header box.",
+         "Every fixed-layout box/record of progressive files, init segments and media segments is decoded strictly (size, version, flags, reserved bits, positions). The progressive tkhd length/flags deviations are listed open findings; its remaining fields are still judged at the shifted positions. av1C profile/level/tier are compared with the sequence header in the record's own configOBUs, avcC's High-profile extension and hvcC's chroma format / bit depths / general profile-tier-level bytes with the SPS the record carries (own bit readers; generated SPS open like real ones); the handler type with the sample entry's coding and the media header box.",
          "Trusted: my reading of ISO/IEC 14496-12/-14/-15 and the AV1/VP9/Opus bindings (appendix A of DESIGN.md).", "3/C19"),
  "C12": ("exploration", "property-based testing with a panic hook, overflow-checked build and a watchdog thread per case (parsers on generated/mutated bitstreams, raw-valued API histories); libFuzzer targets for the thorough tier",
          "Every public parser, the progressive API and the fragmented API are driven with arbitrary and boundary values; any panic, arithmetic overflow or call exceeding the deadline (10 s, confirmed at 60 s) is a violation. Display/Debug of the codec enums and of every returned error also run under width / fill / alignment / precision specifications; the generators of C04, C07, C16 and C18 are borrowed and judged for panics only.",
          "Trusted: overflow-checked release build behaves like the user's build apart from the checks; contract_test/assert_invariant are documented to panic and excluded.", "3/C12"),
  "C17": ("exploration", "property-based testing: byte equality across instances, 1..16 concurrent threads, 9 sink types and pairs of equivalent API paths; plus a compile probe for the type-level Send/Sync clause",
-         "Generated pools of histories are replayed in other instances, threads and sinks and through alias/finish/none/encode paths; all must equal the single-threaded reference byte for byte. Muxers of a pool (progressive, fragmented, mixed) are also kept alive together on one thread and driven alternately; after a muxer whose sink failed at each of its write calls the next recordings on the thread are compared with their references; child processes vary environment variables and the kind of file behind the standard streams (null, file, pseudo-terminal).",
+         "Generated pools of histories are replayed in other instances, threads and sinks and through alias/finish/none/encode paths; all must equal the single-threaded reference byte for byte. Muxers of a pool (progressive, fragmented, mixed) are also kept alive together on one thread and driven alternately; after a muxer whose sink failed at each of its write calls the next recordings on the thread are compared with their references; child processes vary environment variables and the kind of file behind the standard streams (null, file, pseudo-terminal); sinks that panic in write() or fail in flush(); muxers moved to another thread in the middle of a history.",
          "The 'for all W: Send' clause is decided by the compiler on harness/send_probe, not by generated search (declared).", "3/C17"),
  "C20": ("exploration", "property-based testing: subprocess (built CLI) vs in-process library differential over a generated option grammar and input-file classes",
-         "Generated command lines are run against the binary built from the working tree; output file and reported counts must equal the library's, invalid cases must exit non-zero without a completion report, validate verdicts follow the stated rule, info terminates and lists the reader's top-level boxes. Output and input paths are also spelt relative to the child's working directory; titles up to ~120 mixed-width characters.",
+         "Generated command lines are run against the binary built from the working tree; output file and reported counts must equal the library's, invalid cases must exit non-zero without a completion report, validate verdicts follow the stated rule, info terminates and lists the reader's top-level boxes. Output and input paths are also spelt relative to the child's working directory; titles up to ~120 mixed-width characters; info is also run on well-formed files of other writers (64-bit box sizes, size-0 last box, free/skip/uuid boxes, headers straddling 8 KiB blocks).",
          "Trusted: in-process run uses the same single-frame-at-t=0 convention the CLI documents; 20 s process deadline.", "3/C20"),
 }
 NOT_YET = {
